@@ -148,6 +148,118 @@ theorem getQNames_all : ∀ (d : List (Str × Bool)) (st : Store) (m : Mgr),
     have ih := getQNames_all r (Mgr.computeQname st m u g).1 (Mgr.computeQname st m u g).2.1 h0.cache h0.scache
     exact ⟨h0.reach.trans ih.reach, ih.cache, ih.scache⟩
 
+/-! ### one serialised document: bindings, caches, and the document's own prefix table -/
+
+theorem docGetQName_proj (st : Store) (m : Mgr) (d : Doc) (u : Str) (g : Bool) :
+    (docGetQName st m d u g).1 = (Mgr.computeQname st m u g).1 ∧
+      (docGetQName st m d u g).2.1 = (Mgr.computeQname st m u g).2.1 := by
+  unfold docGetQName
+  simp only
+  repeat' split
+  all_goals exact ⟨rfl, rfl⟩
+
+/-- a successful `addNamespace` only adds to the table: declared prefixes keep their namespace,
+    and the returned document prefix is declared for the requested namespace -/
+theorem Doc.addNamespace_ok {d d' : Doc} {p n q : Str} (h : d.addNamespace p n = .ok (d', q)) :
+    alookup d'.table q = some n ∧ ∀ x v, alookup d.table x = some v → alookup d'.table x = some v := by
+  unfold Doc.addNamespace at h
+  simp only at h
+  split at h
+  · exact absurd h (by simp)
+  · next rwt q' _ =>
+    split at h
+    · next n' hn' =>
+      split at h
+      · exact absurd h (by simp)
+      · next hne =>
+        injection h with h; injection h with h1 h2; subst h1 h2
+        have e : n' = n := by simpa using hne
+        subst e
+        refine ⟨by simp, ?_⟩
+        intro x v hx
+        simp only [alookup_aset]
+        split
+        · next hxq => subst hxq; rw [hn'] at hx; exact hx
+        · exact hx
+    · next hnone =>
+      injection h with h; injection h with h1 h2; subst h1 h2
+      refine ⟨by simp, ?_⟩
+      intro x v hx
+      simp only [alookup_aset]
+      split
+      · next hxq => subst hxq; rw [hnone] at hx; exact absurd hx (by simp)
+      · exact hx
+
+/-- every name `dp:l` written so far expands, through the document's table, to its IRI -/
+def NamesOK (d : Doc) (acc : List (Str × Str × Str)) : Prop :=
+  ∀ u dp l, (u, dp, l) ∈ acc → ∃ n, alookup d.table dp = some n ∧ n ++ l = u
+
+theorem docGetQName_names {st : Store} {m : Mgr} {d d' : Doc} {u : Str} {g : Bool}
+    (hc : CacheOK m.cache) (hs : CacheOK m.scache) {acc : List (Str × Str × Str)} (ha : NamesOK d acc)
+    {res : Option (Str × Str)} (h : (docGetQName st m d u g).2.2 = .ok (d', res)) :
+    NamesOK d' acc ∧ ∀ dp l, res = some (dp, l) → ∃ n, alookup d'.table dp = some n ∧ n ++ l = u := by
+  have h0 := computeQname_all (st := st) u g hc hs
+  unfold docGetQName at h
+  simp only at h
+  split at h
+  · injection h with h; injection h with h1 h2; subst h1 h2
+    exact ⟨ha, by intro dp l e; exact absurd e (by simp)⟩
+  · next p n l hparts =>
+    have hnl : n ++ l = u := by
+      split at hparts
+      · next q hq => injection hparts with e; subst e; exact (h0.ok _ _ _ hq).2
+      · split at hparts
+        · injection hparts with e; injection e with e1 e; injection e with e2 e3; subst e2 e3; simp
+        · exact absurd hparts (by simp)
+    split at h
+    · injection h with h; injection h with h1 h2; subst h1 h2
+      exact ⟨ha, by intro dp l e; exact absurd e (by simp)⟩
+    · split at h
+      · next d2 q hadd =>
+        injection h with h; injection h with h1 h2; subst h1 h2
+        obtain ⟨a1, a2⟩ := Doc.addNamespace_ok hadd
+        refine ⟨?_, ?_⟩
+        · intro u' dp' l' hm
+          obtain ⟨n', hn', e'⟩ := ha u' dp' l' hm
+          exact ⟨n', a2 _ _ hn', e'⟩
+        · intro dp l' e
+          injection e with e; injection e with e1 e2; subst e1 e2
+          exact ⟨n, a1, hnl⟩
+      · exact absurd h (by simp)
+
+theorem serDoc_all : ∀ (qs : List (Str × Bool)) (st : Store) (m : Mgr) (d : Doc) (acc : List (Str × Str × Str)),
+    CacheOK m.cache → CacheOK m.scache → NamesOK d acc →
+    MRes st ((serDoc qs st m d acc).1, (serDoc qs st m d acc).2.1) ∧
+      ∀ d' res, (serDoc qs st m d acc).2.2 = .ok (d', res) → NamesOK d' res
+  | [], st, m, d, acc, hc, hs, ha => by
+    refine ⟨⟨Reach.refl _, hc, hs⟩, ?_⟩
+    intro d' res h
+    simp only [serDoc] at h
+    injection h with h; injection h with h1 h2; subst h1 h2; exact ha
+  | (u, g) :: r, st, m, d, acc, hc, hs, ha => by
+    have h0 := computeQname_all (st := st) u g hc hs
+    have hp := docGetQName_proj st m d u g
+    have hm : MRes st ((docGetQName st m d u g).1, (docGetQName st m d u g).2.1) := by
+      rw [hp.1, hp.2]; exact ⟨h0.reach, h0.cache, h0.scache⟩
+    simp only [serDoc]
+    split
+    · exact ⟨hm, by intro d' res h; exact absurd h (by simp)⟩
+    · next d2 hq =>
+      obtain ⟨n1, _⟩ := docGetQName_names hc hs ha hq
+      have ih := serDoc_all r (docGetQName st m d u g).1 (docGetQName st m d u g).2.1 d2 acc hm.cache hm.scache n1
+      exact ⟨⟨hm.reach.trans ih.1.reach, ih.1.cache, ih.1.scache⟩, ih.2⟩
+    · next d2 dp l hq =>
+      obtain ⟨n1, n2⟩ := docGetQName_names hc hs ha hq
+      have hacc : NamesOK d2 (acc ++ [(u, dp, l)]) := by
+        intro u' dp' l' hm'
+        simp only [List.mem_append, List.mem_singleton] at hm'
+        rcases hm' with e | e
+        · exact n1 u' dp' l' e
+        · injection e with e1 e; injection e with e2 e3; subst e1 e2 e3
+          exact n2 _ _ rfl
+      have ih := serDoc_all r (docGetQName st m d u g).1 (docGetQName st m d u g).2.1 d2 _ hm.cache hm.scache hacc
+      exact ⟨⟨hm.reach.trans ih.1.reach, ih.1.cache, ih.1.scache⟩, ih.2⟩
+
 /-! ### the history invariant -/
 
 structure HInv (s : St) : Prop where
@@ -194,6 +306,10 @@ theorem HInv.step {s : St} (h : HInv s) (op : Op) : HInv (s.step op).1 := by
   | parse i d => exact h.put i (bindAll_all true _ _ _ (h.mgr i).1 (h.mgr i).2)
   | parsexml i d => exact h.put i (bindAll_all false _ _ _ (h.mgr i).1 (h.mgr i).2)
   | ser i a b c => exact h.put i (getQNames_all _ _ _ (h.mgr i).1 (h.mgr i).2)
+  | serdoc i qs =>
+    have hd := (serDoc_all qs s.store (s.mgr i) Doc.empty [] (h.mgr i).1 (h.mgr i).2
+      (by intro u dp l hm; exact absurd hm (by simp))).1
+    exact h.put i ⟨hd.reach, cacheOK_nil, hd.scache⟩
 
 theorem HInv.run (ops : List Op) : ∀ {s : St}, HInv s → HInv (s.run ops) := by
   induction ops with
